@@ -456,11 +456,15 @@ func (g *genCtx) genPolicies(o genOpts) []string {
 		lines = append(lines, "td "+wire.EncList(wire.Pick(r, tds)))
 	}
 	if o.custom && r.Chance(1, 2) {
-		lines = append(lines, "custom "+wire.EncList(wire.Pick(r, [][]string{{"default"}, {"default", "p2"}, {"p2"}, {}}))+" "+wire.B(r.Chance(1, 3)))
+		lines = append(lines, "custom "+wire.EncList(wire.Pick(r, [][]string{{"default"}, {"default", "p2"}, {"p2"}, {}, {"http:default"}, {"default", "http:p2"}}))+" "+wire.B(r.Chance(1, 3)))
 	}
 	wlLabels := []string{"app=httpbin", "version=v1"}
 	if o.sel {
-		lines = append(lines, "wl istio-system foo "+wire.EncList(wlLabels))
+		wns := "foo"
+		if r.Chance(1, 6) {
+			wns = "istio-system" // a workload living in the root namespace
+		}
+		lines = append(lines, "wl istio-system "+wns+" "+wire.EncList(wlLabels))
 	}
 	np := 1 + r.Intn(3)
 	if r.Chance(1, 6) {
@@ -483,9 +487,17 @@ func (g *genCtx) genPolicies(o genOpts) []string {
 		if o.sel && r.Chance(1, 8) {
 			ns = "other"
 		}
+		// istio.io/dry-run: "0" = no annotation; the validator accepts ParseBool values on ALLOW/DENY only
 		dry := "0"
-		if o.dryRun && r.Chance(1, 8) {
-			dry = "1"
+		if o.dryRun && r.Chance(1, 6) {
+			if action == "ALLOW" || action == "DENY" {
+				dry = wire.Pick(r, []string{"true", "True", "1", "t", "TRUE", "T", "true", "false", "f", "False"})
+				if !g.valid && r.Chance(1, 6) {
+					dry = wire.Pick(r, []string{"yes", "tRuE", "on", "~"})
+				}
+			} else if !g.valid {
+				dry = wire.Pick(r, []string{"true", "1", "false"})
+			}
 		}
 		sel := "-"
 		if o.sel && r.Chance(1, 3) {
@@ -498,7 +510,11 @@ func (g *genCtx) genPolicies(o genOpts) []string {
 				prov = "~"
 			}
 		}
-		lines = append(lines, fmt.Sprintf("pol %s %s %s %s %s %s", action, ns, fmt.Sprintf("p%d", i), dry, prov, sel))
+		pname := fmt.Sprintf("p%d", i)
+		if !g.valid && i > 0 && r.Chance(1, 12) {
+			pname = "p0" // same name twice (impossible in Kubernetes): the later entry overwrites the map entry
+		}
+		lines = append(lines, fmt.Sprintf("pol %s %s %s %s %s %s", action, ns, pname, dry, prov, sel))
 		g.customRule = action == "CUSTOM"
 		nr := 1 + r.Intn(2)
 		if action == "ALLOW" && r.Chance(1, 8) {
@@ -572,6 +588,9 @@ func gen(stream string, seed uint64, n int, outp string) {
 			}
 			if r.Chance(1, 8) {
 				out.Line("build tcp 0")
+			}
+			if r.Chance(1, 5) {
+				out.Line("build tcphttp 1")
 			}
 		case "requests":
 			out.Line("build http " + wire.B(!r.Chance(1, 6)))
